@@ -4,7 +4,7 @@
    specification's log is for the cases the property names.  (The property constrains the multiset of accesses; the
    theorem fixes their order as well -- a harmless reordering inside one Step breaks the proof without violating C05;
    the failing-input search then compares multisets and reports no-failing-input-found.) *)
-From Z80V Require Import Proofs.SpecFacts.
+From Z80V Require Import Proofs.SpecFacts Proofs.Halted Proofs.Iter.
 
 Theorem C05_tie : forall cpu, WF cpu -> Step cpu = spec_step impl_unspec cpu.
 Proof. exact Step_ok. Qed.
@@ -61,3 +61,12 @@ Theorem C05_block_out : forall u dec rep cpu, g_IO cpu = true -> g_Memory cpu = 
   new_events (g_W cpu) (g_W (exec u MHL (BLOCK BOUT dec rep) cpu)) = [EvOut (g_BC_Lo cpu) v; EvRd (regw (g_HL cpu)) v].
 Proof. exact block_out_log. Qed.
 Print Assumptions C05_block_out.
+
+(* ---- over ANY number of Steps of the generated code spent on a HALT opcode: the access log grows by exactly one read of the
+   opcode byte at PC per Step (the log is newest first) -- no other read, no write, no port access, no device input consumed ---- *)
+Theorem C05_halted_accesses : forall n cpu, WF cpu -> g_Memory cpu = UserMem -> g_Interrupt cpu = None ->
+  u8 (ram (g_W cpu) (g_PC cpu)) = 118 ->
+  trace (g_W (iter n cpu)) = repeat (EvRd (g_PC cpu) 118) n ++ trace (g_W cpu) /\
+  inputs (g_W (iter n cpu)) = inputs (g_W cpu).
+Proof. exact halted_trace_gen. Qed.
+Print Assumptions C05_halted_accesses.
